@@ -63,14 +63,15 @@ type simDialer struct {
 func (d *simDialer) DialContext(ctx context.Context, network, address string) (net.Conn, error) {
 	d.mu.Lock()
 	i := len(d.conns)
+	d.conns = append(d.conns, nil) // reserve the id
 	d.mu.Unlock()
 	c, err := d.mk(i)
 	if err != nil {
 		return nil, err
 	}
+	c.ID = i
 	d.mu.Lock()
-	c.ID = len(d.conns)
-	d.conns = append(d.conns, c)
+	d.conns[i] = c
 	d.mu.Unlock()
 	return c, nil
 }
@@ -78,7 +79,13 @@ func (d *simDialer) DialContext(ctx context.Context, network, address string) (n
 func (d *simDialer) Conns() []*simnet.Conn {
 	d.mu.Lock()
 	defer d.mu.Unlock()
-	return append([]*simnet.Conn(nil), d.conns...)
+	var out []*simnet.Conn
+	for _, c := range d.conns {
+		if c != nil {
+			out = append(out, c)
+		}
+	}
+	return out
 }
 
 // goroutineDump returns the stacks of all goroutines.
